@@ -58,6 +58,10 @@ def sessions_for(family, cases):
         ss.append({"fam": family, "ops": [{"e": "Main", "p": p} for p in cases]})
         # and the same sweep driven from ONE long-lived process (main() called repeatedly)
         ss.append({"fam": family, "ops": [{"e": "Main", "p": p, "inproc": True} for p in cases]})
+        # and in ONE inputs/ directory that keeps every file of the sweep (a file on disk must never
+        # stand in for another parameter set), in both directions of the sweep
+        ss.append({"fam": family, "ops": [{"e": "Main", "p": p, "keep": True} for p in cases]})
+        ss.append({"fam": family, "ops": [{"e": "Main", "p": p, "keep": True} for p in reversed(cases)]})
     elif family == "freq":
         for p in cases:
             ss.append({"fam": family, "ops": [{"e": "Freq", "p": p}]})
